@@ -2,7 +2,7 @@
 # tools/seed_pipeline.sh PID WT crate testname [lib filter] : for k in 1..3 confirm (in WT) + mutcheck + keep
 PID=$1; WT=$2; CRATE=$3; TN=$4; FILTER=${5:-}
 cd /verif
-for k in 1 2 3; do
+for k in ${KS:-1 2 3}; do
   [ -d /tmp/seed-out/$PID/$k ] || continue
   ( export SEED_WT=$WT; sed "s#^WT=.*#WT=$WT; OUT=/tmp/seed-out/\$PID/\$K#" tools/confirm_seed.sh > .cache/confirm_tmp_$PID.sh; bash .cache/confirm_tmp_$PID.sh $PID $k $CRATE $TN $FILTER ) > .cache/confirm-$PID-$k.log 2>&1
   tools/mutcheck.sh $PID --patch /tmp/seed-out/$PID/$k/patch.diff > .cache/mut-$PID-$k.log 2>&1; echo "rc=$?" >> .cache/mut-$PID-$k.log
